@@ -27,10 +27,17 @@ func (c *decrypt3k3yCmd) Run() error {
 		return err
 	}
 
+	// watermark and key must be removed too: otherwise result still looks like encrypted 3k3y image
+	// (but without regions map) and can't be served
+	imageCleaned, err := fs.NewISO3k3y(imageWrapped)
+	if err != nil {
+		return err
+	}
+
 	// not to stdout: it may be used for image itself
 	fmt.Fprintf(os.Stderr, "Decrypting 3k3y image %s ...\n", c.Image.Name())
 
-	_, err = io.Copy(c.Output, imageWrapped)
+	_, err = io.Copy(c.Output, imageCleaned)
 	return err
 }
 
